@@ -17,7 +17,7 @@ typedef int generic_cell;
 
 /* one candidate (Transition::execute(sm, region_id, evt) / Transition::execute(sm, evt) / a cell of the compile-time chain) */
 process_result row_execute(type_t row, fsm_t* sm, uint8_t region_id, event_t evt)
-__CPROVER_requires(row == g_chain_pos && 0 <= row && row < g_n)                 /*@ob C01.candidates-tried-in-priority-order-each-once */
+__CPROVER_requires(row == g_chain_pos && 0 <= row && row < g_n)                 /*@ob C01,C02.candidates-tried-in-priority-order-each-once */
 __CPROVER_requires(!g_consumed)                                                  /*@ob C01,C07.no-candidate-after-consumption */
 __CPROVER_requires(g_taken < 1000000 && g_rejects <= 1000000)
 __CPROVER_assigns(g_chain_pos, g_consumed, g_taken, g_rejects)
@@ -34,9 +34,9 @@ __CPROVER_ensures(g_rejects == __CPROVER_old(g_rejects) + (!CONSUMED(__CPROVER_r
 process_result chain_entry(fsm_t* sm, uint8_t region_id, event_t evt)
 __CPROVER_requires(0 <= g_n && g_n <= 1000000 && g_chain_pos == 0 && !g_consumed && g_taken == 0 && g_rejects == 0)
 __CPROVER_assigns(g_chain_pos, g_consumed, g_taken, g_rejects)
-__CPROVER_ensures(g_consumed == CONSUMED(__CPROVER_return_value))                                                          /*@ob C01.result-says-consumed-iff-consumed */
-__CPROVER_ensures(((((int)__CPROVER_return_value) & HANDLED_TRUE) != 0) == (g_taken > __CPROVER_old(g_taken)))            /*@ob C06.handled-bit-iff-a-transition-was-taken */
-__CPROVER_ensures(g_taken <= __CPROVER_old(g_taken)+1)                                                                     /*@ob C01.at-most-one-candidate-taken */
+__CPROVER_ensures(g_consumed == CONSUMED(__CPROVER_return_value))                                                          /*@ob C01,C06,C07.result-says-consumed-iff-consumed */
+__CPROVER_ensures(((((int)__CPROVER_return_value) & HANDLED_TRUE) != 0) == (g_taken > __CPROVER_old(g_taken)))            /*@ob C06,C01.handled-bit-iff-a-transition-was-taken */
+__CPROVER_ensures(g_taken <= __CPROVER_old(g_taken)+1)                                                                     /*@ob C01,C02.at-most-one-candidate-taken */
 __CPROVER_ensures(g_taken >= __CPROVER_old(g_taken) && g_rejects >= __CPROVER_old(g_rejects) && g_chain_pos >= __CPROVER_old(g_chain_pos) && g_chain_pos <= g_n)
 __CPROVER_ensures(!g_consumed ==> g_chain_pos == g_n)                                                                      /*@ob C01.all-candidates-tried-if-none-consumed */
 __CPROVER_ensures(!g_consumed ==> (__CPROVER_return_value == ((g_rejects > __CPROVER_old(g_rejects)) ? HANDLED_GUARD_REJECT : HANDLED_FALSE)))  /*@ob C06.reject-reported-iff-some-guard-rejected */
@@ -47,9 +47,9 @@ __CPROVER_ensures(0 <= (int)__CPROVER_return_value && (int)__CPROVER_return_valu
 process_result chain_entry_acc(fsm_t* sm, uint8_t region_id, event_t evt, process_result result)
 __CPROVER_requires(0 <= g_n && g_n <= 1000000 && g_chain_pos == 0 && !g_consumed && g_taken == 0 && (result == HANDLED_FALSE || result == HANDLED_GUARD_REJECT) && g_rejects == (result == HANDLED_GUARD_REJECT))
 __CPROVER_assigns(g_chain_pos, g_consumed, g_taken, g_rejects)
-__CPROVER_ensures(g_consumed == CONSUMED(__CPROVER_return_value))                                                          /*@ob C01.result-says-consumed-iff-consumed */
-__CPROVER_ensures(((((int)__CPROVER_return_value) & HANDLED_TRUE) != 0) == (g_taken > __CPROVER_old(g_taken)))            /*@ob C06.handled-bit-iff-a-transition-was-taken */
-__CPROVER_ensures(g_taken <= __CPROVER_old(g_taken)+1)                                                                     /*@ob C01.at-most-one-candidate-taken */
+__CPROVER_ensures(g_consumed == CONSUMED(__CPROVER_return_value))                                                          /*@ob C01,C06,C07.result-says-consumed-iff-consumed */
+__CPROVER_ensures(((((int)__CPROVER_return_value) & HANDLED_TRUE) != 0) == (g_taken > __CPROVER_old(g_taken)))            /*@ob C06,C01.handled-bit-iff-a-transition-was-taken */
+__CPROVER_ensures(g_taken <= __CPROVER_old(g_taken)+1)                                                                     /*@ob C01,C02.at-most-one-candidate-taken */
 __CPROVER_ensures(g_taken >= __CPROVER_old(g_taken) && g_rejects >= __CPROVER_old(g_rejects) && g_chain_pos >= __CPROVER_old(g_chain_pos) && g_chain_pos <= g_n)
 __CPROVER_ensures(!g_consumed ==> g_chain_pos == g_n)                                                                      /*@ob C01.all-candidates-tried-if-none-consumed */
 __CPROVER_ensures(!g_consumed ==> (__CPROVER_return_value == ((g_rejects > 0) ? HANDLED_GUARD_REJECT : HANDLED_FALSE)))   /*@ob C06.reject-reported-iff-some-guard-rejected */
@@ -66,7 +66,7 @@ enum { process_info_direct_call = 0, process_info_submachine_call = 1, process_i
 typedef int process_info;
 
 process_result dispatch_table_dispatch(fsm_t* sm, size_t region_id, event_t event)
-__CPROVER_requires(region_id == g_region_next && region_id < nr_regions)                     /*@ob C06.every-region-once-in-declaration-order */
+__CPROVER_requires(region_id == g_region_next && region_id < nr_regions)                     /*@ob C06,C01.every-region-once-in-declaration-order */
 __CPROVER_requires(ACC_INV)
 __CPROVER_assigns(g_region_next, g_acc, g_ntaken, sm->m_active_state_ids[region_id])
 __CPROVER_ensures(g_region_next == __CPROVER_old(g_region_next)+1)
@@ -76,7 +76,7 @@ __CPROVER_ensures(g_ntaken == __CPROVER_old(g_ntaken) + ((((int)__CPROVER_return
 ;
 process_result dispatch_table_internal_dispatch(fsm_t* sm, event_t event)
 __CPROVER_requires(g_region_next == nr_regions)                                              /*@ob C01.sm-internal-table-after-all-regions */
-__CPROVER_requires(!CONSUMED(g_acc))                                                         /*@ob C01.sm-internal-table-only-if-not-consumed */
+__CPROVER_requires(!CONSUMED(g_acc))                                                         /*@ob C01,C07.sm-internal-table-only-if-not-consumed */
 __CPROVER_requires(!g_internal_tried && ACC_INV)
 __CPROVER_assigns(g_internal_tried, g_acc, g_ntaken)
 __CPROVER_ensures(g_internal_tried == 1)
@@ -85,7 +85,7 @@ __CPROVER_ensures(g_acc == (__CPROVER_old(g_acc) | (int)__CPROVER_return_value))
 __CPROVER_ensures(g_ntaken == __CPROVER_old(g_ntaken) + ((((int)__CPROVER_return_value) & HANDLED_TRUE) != 0))
 ;
 void no_transition(fsm_t* self, event_t evt, fsm_t* fsm, uint16_t state)
-__CPROVER_requires(g_acc == 0)                                                                       /*@ob C06.no-transition-only-if-nothing-reacted */
+__CPROVER_requires(g_acc == 0)                                                                       /*@ob C06,C05.no-transition-only-if-nothing-reacted */
 __CPROVER_requires(0 <= g_nt_next && g_nt_next < nr_regions && state == self->m_active_state_ids[g_nt_next])   /*@ob C06.no-transition-once-per-region-with-its-active-state */
 __CPROVER_requires(self == fsm)
 __CPROVER_assigns(g_nt_next, g_exc)
@@ -96,10 +96,10 @@ __CPROVER_requires(__CPROVER_is_fresh(self, sizeof(*self)) && 1 <= nr_regions &&
 __CPROVER_requires(g_region_next == 0 && g_acc == 0 && !g_internal_tried && g_ntaken == 0 && g_nt_next == 0 && !g_exc)
 __CPROVER_assigns(g_region_next, g_acc, g_ntaken, g_internal_tried, g_nt_next, g_exc, g_acc_regions, __CPROVER_object_whole(self->m_active_state_ids))
 __CPROVER_ensures(!g_exc ==> g_region_next == nr_regions)                                                        /*@ob C06.every-region-was-offered-the-event */
-__CPROVER_ensures(!g_exc ==> (int)__CPROVER_return_value == g_acc)                                               /*@ob C06.result-is-the-or-of-the-regions */
-__CPROVER_ensures(!g_exc ==> (((g_acc & HANDLED_TRUE) != 0) == (g_ntaken > 0)))                                  /*@ob C06.handled-bit-iff-a-transition-was-taken */
+__CPROVER_ensures(!g_exc ==> (int)__CPROVER_return_value == g_acc)                                               /*@ob C06,C07.result-is-the-or-of-the-regions */
+__CPROVER_ensures(!g_exc ==> (((g_acc & HANDLED_TRUE) != 0) == (g_ntaken > 0)))                                  /*@ob C06,C01.handled-bit-iff-a-transition-was-taken */
 __CPROVER_ensures(!g_exc ==> (g_internal_tried == !CONSUMED(g_acc_regions)))                                     /*@ob C01.sm-internal-table-tried-when-regions-did-not-consume */
-__CPROVER_ensures(!g_exc ==> (g_nt_next == ((g_acc == 0 && info != process_info_submachine_call) ? nr_regions : 0)))   /*@ob C06.no-transition-exactly-when-nothing-reacted */
+__CPROVER_ensures(!g_exc ==> (g_nt_next == ((g_acc == 0 && info != process_info_submachine_call) ? nr_regions : 0)))   /*@ob C06,C05,C10.no-transition-exactly-when-nothing-reacted */
 ;
 
 /* ---------------- forwarding to a submachine (C07) */
@@ -107,10 +107,10 @@ extern const type_t Submachine;
 extern int g_sub_calls, g_sub_ret;
 extern const event_t g_evt;
 process_result sub_process_event_internal(stref_t sub, event_t evt, process_info info)
-__CPROVER_requires(sub == __CPROVER_uninterpreted_get_state(Submachine))          /*@ob C07.forwarded-to-the-active-submachine-of-this-row */
+__CPROVER_requires(sub == __CPROVER_uninterpreted_get_state(Submachine))          /*@ob C07,C01.forwarded-to-the-active-submachine-of-this-row */
 __CPROVER_requires(info == process_info_submachine_call)                          /*@ob C07.forwarded-event-is-not-a-direct-call */
 __CPROVER_requires(EV_EQ(evt, g_evt))                                             /*@ob C07,C18.same-event-and-payload-forwarded */
-__CPROVER_requires(g_sub_calls == 0)                                              /*@ob C07.submachine-offered-the-event-exactly-once */
+__CPROVER_requires(g_sub_calls == 0)                                              /*@ob C07,C06,C01.submachine-offered-the-event-exactly-once */
 __CPROVER_assigns(g_sub_calls, g_sub_ret, g_exc)
 __CPROVER_ensures(g_sub_calls == 1 && 0 <= g_sub_ret && g_sub_ret <= 7 && (int)__CPROVER_return_value == g_sub_ret)
 ;
@@ -118,15 +118,15 @@ process_result forward_execute(fsm_t* sm, uint8_t region_id, event_t event)
 __CPROVER_requires(__CPROVER_is_fresh(sm, sizeof(*sm)) && region_id < NR_CAP && sm->m_active_state_ids[region_id] == get_state_id_mp11(Submachine))
 __CPROVER_requires(g_sub_calls == 0 && !g_exc && EV_EQ(event, g_evt))
 __CPROVER_assigns(g_sub_calls, g_sub_ret, g_exc)                                                 /*@ob C07.submachine-remains-the-active-state */
-__CPROVER_ensures(g_sub_calls == 1)                                                              /*@ob C07.submachine-offered-the-event-exactly-once */
-__CPROVER_ensures(!g_exc ==> (int)__CPROVER_return_value == g_sub_ret)                           /*@ob C07.inner-result-returned-unchanged */
+__CPROVER_ensures(g_sub_calls == 1)                                                              /*@ob C07,C06,C01.submachine-offered-the-event-exactly-once */
+__CPROVER_ensures(!g_exc ==> (int)__CPROVER_return_value == g_sub_ret)                           /*@ob C07,C06,C01.inner-result-returned-unchanged */
 ;
 
 /* ---------------- backmp11 favor_compile_time: state_dispatch_table::dispatch (one state's cell) ---------------- */
 typedef struct { _Bool m_call_process_event; _Bool has_chain; } sdt_t;      /* function pointer set? ; m_transition_chains.find(event.type()) != end() */
 extern int g_sub_calls2, g_sub_ret2, g_chain_calls, g_chain_ret;
 process_result call_process_event_fp(const sdt_t* self, fsm_t* sm, event_t event)
-__CPROVER_requires(self->m_call_process_event && g_sub_calls2 == 0 && g_chain_calls == 0)       /*@ob C01,C07.active-submachine-offered-the-event-first-and-once */
+__CPROVER_requires(self->m_call_process_event && g_sub_calls2 == 0 && g_chain_calls == 0)       /*@ob C01,C07,C06.active-submachine-offered-the-event-first-and-once */
 __CPROVER_requires(EV_EQ(event, g_evt))
 __CPROVER_assigns(g_sub_calls2, g_sub_ret2)
 __CPROVER_ensures(g_sub_calls2 == 1 && 0 <= g_sub_ret2 && g_sub_ret2 <= 7 && (int)__CPROVER_return_value == g_sub_ret2)
@@ -142,7 +142,7 @@ __CPROVER_ensures(g_chain_calls == 1 && 0 <= g_chain_ret && g_chain_ret <= 7 && 
 process_result state_dispatch(const sdt_t* self, fsm_t* sm, uint8_t region_id, event_t event)
 __CPROVER_requires(__CPROVER_is_fresh(self, sizeof(*self)) && g_sub_calls2 == 0 && g_chain_calls == 0 && EV_EQ(event, g_evt))
 __CPROVER_assigns(g_sub_calls2, g_sub_ret2, g_chain_calls, g_chain_ret)
-__CPROVER_ensures(g_sub_calls2 == (self->m_call_process_event ? 1 : 0))                                                          /*@ob C07.active-submachine-offered-the-event-first-and-once */
+__CPROVER_ensures(g_sub_calls2 == (self->m_call_process_event ? 1 : 0))                                                          /*@ob C07,C01,C06.active-submachine-offered-the-event-first-and-once */
 __CPROVER_ensures(g_chain_calls == ((self->has_chain && !(g_sub_calls2 && CONSUMED(g_sub_ret2))) ? 1 : 0))                       /*@ob C01,C07.outer-chain-tried-iff-the-inner-level-did-not-consume */
 __CPROVER_ensures((int)__CPROVER_return_value == (g_chain_calls ? g_chain_ret : g_sub_calls2 ? g_sub_ret2 : HANDLED_FALSE))      /*@ob C06,C13.result-of-the-level-that-decided */
 ;
